@@ -4,6 +4,7 @@ import (
 	"go/ast"
 	"go/token"
 	"go/types"
+	"sort"
 )
 
 func init() {
@@ -73,6 +74,102 @@ func c10(c *Ctx) {
 		return assignRHS(n, func(e ast.Expr) bool { return isField(info, e, fEnd) }) != nil
 	})
 	ruleEndAtomic(c, ix, le, "R2")
+	// … and IsRecording answers from state that End changes inside that same critical section: a flag published after the
+	// unlock lets a racing second End return (its isRecording() test fails at once) while IsRecording still says true
+	if isRecPub := c.Fn(ix, "R2", "(*recordingSpan).IsRecording"); isRecPub != nil {
+		spanT := namedOf(end.Recv().Type())
+		reads := map[*types.Var]token.Pos{}
+		var collect func(f *FuncInfo, depth int)
+		collect = func(f *FuncInfo, depth int) {
+			if f == nil || f.Body() == nil || depth > 3 {
+				return
+			}
+			inspectNoLit(f.Body(), func(n ast.Node) bool {
+				switch x := n.(type) {
+				case *ast.SelectorExpr:
+					if fv, b := fieldOf(info, x); fv != nil && b != nil {
+						if tv, ok := info.Types[b]; ok && spanT != nil && namedOf(tv.Type) != nil && namedOf(tv.Type).Obj() == spanT.Obj() {
+							if _, isMu := fv.Type().(*types.Named); !isMu || !(typeIs(fv.Type(), "sync", "Mutex") || typeIs(fv.Type(), "sync", "RWMutex")) {
+								if _, have := reads[fv.Origin()]; !have {
+									reads[fv.Origin()] = x.Pos()
+								}
+							}
+						}
+					}
+				case *ast.CallExpr:
+					if cf := callee(info, x); cf != nil {
+						if d := ix.declByObj(cf); d != nil && d.Recv() != nil && namedOf(d.Recv().Type()) != nil && spanT != nil && namedOf(d.Recv().Type()).Obj() == spanT.Obj() {
+							collect(d, depth+1)
+						}
+					}
+				}
+				return true
+			})
+		}
+		collect(isRecPub, 0)
+		recvKey := varKey(end.Recv()) + resolvePath(ix.Pkg, "recordingSpan", ".mu")
+		var names []string
+		for fv := range reads {
+			names = append(names, fv.Name())
+		}
+		sort.Strings(names)
+		for _, nm := range names {
+			var fv *types.Var
+			for v := range reads {
+				if v.Name() == nm {
+					fv = v
+				}
+			}
+			// writes of fv in End: assignments and atomic Store/Swap/CompareAndSwap calls on the field
+			nw, bad := 0, ""
+			var badPos token.Pos
+			for _, x := range g.Nodes {
+				if x.N == nil {
+					continue
+				}
+				if _, isDefer := x.N.(*ast.DeferStmt); isDefer {
+					continue
+				}
+				w := false
+				inspectNoLit(x.N, func(n ast.Node) bool {
+					switch y := n.(type) {
+					case *ast.AssignStmt:
+						for _, l := range y.Lhs {
+							if f2, _ := fieldOf(info, l); f2 != nil && f2.Origin() == fv {
+								w = true
+							}
+						}
+					case *ast.CallExpr:
+						if recv, m := methodCall(info, y); m != nil && recv != nil {
+							if f2, _ := fieldOf(info, recv); f2 != nil && f2.Origin() == fv {
+								switch m.Name() {
+								case "Store", "Swap", "CompareAndSwap", "Add":
+									w = true
+								}
+							}
+						}
+					}
+					return true
+				})
+				if !w {
+					continue
+				}
+				nw++
+				if !le.Held(end)[x][recvKey] {
+					bad, badPos = "End changes "+nm+" outside the critical section of s.mu that ends the span", x.N.Pos()
+				}
+			}
+			if nw == 0 {
+				continue // state End does not change (nil receiver, tracer …)
+			}
+			pos := reads[fv]
+			if bad != "" {
+				pos = badPos
+			}
+			c.Check(bad == "", "R2", "sdk/trace|(*recordingSpan).IsRecording|"+nm+" changes inside End's critical section", at(ix.M, pos), "IsRecording reads what End writes under s.mu together with endTime",
+				bad+": a second End racing the first returns while IsRecording() still reports true (the span does not report not-recording once End has returned)")
+		}
+	}
 
 	// R3 End order, fan-out outside the lock
 	c.Rule("R3", "E3 ordering + total fan-out + E1 not-under-lock", "End: endTime store → unlock → snapshot() once → total loop calling OnEnd(snapshot); no SpanProcessor/SpanExporter method runs while a span mutex may be held", 4)
